@@ -100,10 +100,10 @@ def _make_message(tool, coolant, reset, length):
             m = f"{exc_name(e)}: {e}"
             return V("emergency_halt-raises-" + exc_name(e), lambda: f"{m} for message {msg!r}")
         text = rec.text()
-        lines = text.split("\n")
-        if lines[-1] != "" or len(lines) != 5:
-            return V("emergency_halt-wrong-sequence", lambda: f"output {text!r} for message {msg!r}")
-        heads = [ln.split(";")[0].split() for ln in lines[:4]]
+        from .c09 import lex       # independent lexer: a line ends at LF, CR or CRLF
+        heads = lex(text, ";")
+        if not isinstance(heads, list):
+            return V("emergency_halt-wrong-sequence", lambda: f"{heads!r}: output {text!r} for message {msg!r}")
         want = [["M05"], ["M09"], [], ["M30" if reset else "M00"]]
         if heads != want:
             return V("emergency_halt-wrong-sequence",
